@@ -223,6 +223,13 @@ def check_valid(ctx, sim, where):
     if not ok and not msgs:
         ctx.fail("invalid-without-message", f"{where}: invalid verdict without any message")
     flag = (True, 1, True)[len(msgs) % 3] if not ok else True  # any truthy value enables raising
+    if isinstance(msgs, list):
+        # the returned list belongs to the caller: editing it must not influence the next verdict
+        ctx.label("returned-messages-edited")
+        if msgs:
+            msgs.clear()
+        else:
+            msgs.append("note of the caller")
     try:
         r2 = sim.net.is_valid(raises=flag)
         raised = None
